@@ -189,7 +189,7 @@ impl Controller for Sched {
 
 // ---------------------------------------------------------------------------
 
-fn run_op(maps: &TorrentMaps, config: &Config, op: &Value, rng: &mut SmallRng) -> i64 {
+fn run_op(maps: &TorrentMaps, config: &Config, op: &Value, rng: &mut SmallRng) -> Value {
     let (tx, _rx) = crossbeam_channel::unbounded();
     match get_str(op, "kind") {
         "announce" => {
@@ -226,26 +226,34 @@ fn run_op(maps: &TorrentMaps, config: &Config, op: &Value, rng: &mut SmallRng) -
             );
             match resp {
                 Response::AnnounceIpv4(r) => {
-                    (r.fixed.seeders.0.get() + r.fixed.leechers.0.get()) as i64
+                    json!((r.fixed.seeders.0.get() + r.fixed.leechers.0.get()) as i64)
                 }
-                _ => -1,
+                _ => json!(-1),
             }
         }
         "scrape" => {
-            let h = get_i64(op, "h") as u32;
+            // one reply entry per requested hash: the units of a scrape are linearized separately
+            let hs: Vec<u32> = op["hs"]
+                .as_array()
+                .expect("scrape.hs")
+                .iter()
+                .map(|x| x.as_u64().unwrap() as u32)
+                .collect();
             let (ip, _) = ids::key_addr(4, "k0");
             let resp = maps.scrape(
                 ScrapeRequest {
                     connection_id: ConnectionId::new(0),
                     transaction_id: TransactionId::new(1),
-                    info_hashes: vec![InfoHash(ids::info_hash(h))],
+                    info_hashes: hs.iter().map(|h| InfoHash(ids::info_hash(*h))).collect(),
                 },
                 CanonicalSocketAddr::new(SocketAddr::new(ip, 40000)),
             );
-            resp.torrent_stats
-                .iter()
-                .map(|s| (s.seeders.0.get() + s.leechers.0.get()) as i64)
-                .sum()
+            Value::Array(
+                resp.torrent_stats
+                    .iter()
+                    .map(|s| json!((s.seeders.0.get() + s.leechers.0.get()) as i64))
+                    .collect(),
+            )
         }
         "clean" => {
             let stats: CachePaddedArc<IpVersionStatistics<SwarmWorkerStatistics>> = Default::default();
@@ -258,7 +266,7 @@ fn run_op(maps: &TorrentMaps, config: &Config, op: &Value, rng: &mut SmallRng) -
                 SecondsSinceServerStart::new_raw(get_i64(op, "now") as u32),
                 false,
             );
-            0
+            json!(0)
         }
         k => panic!("unknown op kind {}", k),
     }
@@ -279,9 +287,14 @@ fn relevant_shards(program: &Value) -> HashSet<u64> {
     let mut s = HashSet::new();
     for (_, ops) in program_threads(program) {
         for op in ops {
+            // ipv4 shards have lock ids 0..16, ipv6 16..32; programs use ipv4 only
             if let Some(h) = op.get("h").and_then(|x| x.as_i64()) {
-                // ipv4 shards have lock ids 0..16, ipv6 16..32; programs use ipv4 only
                 s.insert((ids::info_hash(h as u32)[0] % 16) as u64);
+            }
+            if let Some(hs) = op.get("hs").and_then(|x| x.as_array()) {
+                for h in hs {
+                    s.insert((ids::info_hash(h.as_u64().unwrap() as u32)[0] % 16) as u64);
+                }
             }
         }
     }
@@ -338,7 +351,7 @@ fn run_controlled(
                     };
                     let reply = run_op(&maps, &config, op, &mut rng);
                     let mut g = sched.shared.lock().unwrap();
-                    g.log[idx]["reply"] = json!(reply);
+                    g.log[idx]["reply"] = reply.clone();
                     g.log.push(json!({"ev":"ret","thr":t,"i":i+1,"reply":reply}));
                 }
             }));
@@ -461,7 +474,7 @@ fn run_free(program: &Value, seed: u64) -> Vec<Value> {
                 let mut g = log.lock().unwrap();
                 match r {
                     Ok(reply) => {
-                        g[idx]["reply"] = json!(reply);
+                        g[idx]["reply"] = reply.clone();
                         g.push(json!({"ev":"ret","thr":t,"i":i+1,"reply":reply}));
                     }
                     Err(e) => {
